@@ -518,7 +518,7 @@ var c11ExtremePrio = []int32{-1 << 31, -1 << 31, -1<<31 + 1, -1, 1, 1, 100000000
 // and the keys carried by the PodEvictInfo objects).
 func c11GenPods(r *kit.Rand, n int, mode int) []*c11Pod {
 	pods := make([]*c11Pod, n)
-	sharedPrio := kit.Pick(r, []int32{5500, 100, -1 << 31, 1})
+	sharedPrio := kit.Pick(r, []int32{5500, 100, -1 << 31, -1, 1})
 	for i := range pods {
 		p := &c11Pod{idx: i, name: fmt.Sprintf("p%d", i), optOut: map[string]bool{}}
 		var lo, hi int32
@@ -552,7 +552,8 @@ func c11GenPods(r *kit.Rand, n int, mode int) []*c11Pod {
 		}
 		p.labelPrio = int64(p.prio)
 		if mode == 3 && r.Pct(70) {
-			p.labelPrio = int64(kit.Pick(r, c11ExtremeI32))
+			// a label value cannot start with '-': only non-negative extremes are legal label values
+			p.labelPrio = int64(kit.Pick(r, []int32{0, 1, 1<<31 - 2, 1<<31 - 1}))
 		} else if r.Pct(20) {
 			p.labelPrio = int64(r.Intn(10000))
 		}
